@@ -49,7 +49,8 @@ func CheckTestOnly(
 	}
 
 	for file := range filesToCheck {
-		fileName := pass.Fset.Position(file.Pos()).Filename
+		// The file's own name, not one a //line directive substitutes for it
+		fileName := pass.Fset.PositionFor(file.Pos(), false).Filename
 		context.fileName = &fileName
 
 		// Check if this is a test file
